@@ -271,6 +271,13 @@ def _check(prop, cfg, tier, seed, scratch, t0):
         else:
             kf_lines.append('KNOWN-FINDING: property=%s %s [%s]' % (prop, kf['what'], kf['obligation']))
 
+    # the same failure seen in two units of one crate (P / Pc) is one violation
+    seen_v = set(); uniq = []
+    for v in violations:
+        kx = (v.get('ob'), v.get('fn'), v.get('message'))
+        if kx in seen_v: continue
+        seen_v.add(kx); uniq.append(v)
+    violations = uniq
     wall = time.time() - t0
     # ---- verdict
     rc = 0
